@@ -436,6 +436,47 @@ func (m *Model) ruleFEEDDELIVER(r *Results) {
 	c := newCut()
 	c.cutBlock(cb.Block())
 	round := pull.Block() != cb.Block() && reachableFromSuccs(pull.Block(), c)[pull.Block().Index]
+	// ... and the loop is left only because the queue yielded nil (closed, or the end marker of a
+	// dump): any other exit condition - a flag of the handle the feed was started through, a
+	// counter - ends the feed for reasons that are not the feed's
+	if _, loop := naturalLoop(pull.Block()); loop != nil {
+		badExit := ""
+		for b := range loop {
+			if len(b.Succs) < 2 {
+				continue
+			}
+			leaves := false
+			for _, sc := range b.Succs {
+				if !loop[sc] {
+					leaves = true
+				}
+			}
+			if !leaves {
+				continue
+			}
+			iff, ok := b.Instrs[len(b.Instrs)-1].(*ssa.If)
+			if !ok {
+				continue
+			}
+			cd := condOf(iff)
+			okExit := false
+			if _, isEq := cd.equalEdge(); isEq && (isNilConst(cd.X) || isNilConst(cd.Y)) {
+				other := cd.X
+				if isNilConst(cd.X) {
+					other = cd.Y
+				}
+				okExit = m.pulledValue(other)
+			}
+			if !okExit {
+				badExit = m.instrPos(iff)
+			}
+		}
+		pos := m.instrPos(pull)
+		if badExit != "" {
+			pos = badExit
+		}
+		r.check(badExit == "", rule, "<feed-loop> / left only when the queue yields nil", pos, "every exit of the delivery loop tests the pulled event against nil", "the delivery loop has an exit that is not 'the queue yielded nil' (at "+badExit+"): the feed then ends - its done channel closes - on a condition such as the closed flag of the handle it was started through, although its terminator is open and the store is still in use through other handles")
+	}
 	r.check(!round, rule, "<feed-loop> / every pulled event is delivered", m.instrPos(pull), "no path from the pull back to the pull avoids the callback", "the delivery loop can go round from one pull to the next without calling the callback: an event taken off the queue is dropped (for example by a consumer-side 'already delivered' test, which is wrong whenever events are enqueued out of CAS order)")
 }
 
@@ -1067,5 +1108,33 @@ func (m *Model) ruleERRDROPPED(r *Results) {
 	}
 	if n == 0 {
 		r.info(rule, "instances", "-", "no error value is only compared with nil")
+	}
+}
+
+
+// ---------------------------------------------------------------- R-NIL-ROW
+
+// The handle a reader gets from db() may be the stub of a closed bucket, whose QueryRow returns
+// a nil *sql.Row. The package's scan helper turns that into the bucket-closed error; calling
+// (*sql.Row).Scan directly on such a row is a nil-pointer panic in the caller's goroutine when a
+// Close lands between two reads.
+func (m *Model) ruleNILROW(r *Results) {
+	const rule = "R-NIL-ROW"
+	n := 0
+	for _, sc := range m.scanCalls() {
+		cc := sc.Call.Common()
+		if !isMethodCall(cc, "database/sql", "Row", "Scan") || sc.Fn == m.A.ScanHelper {
+			continue
+		}
+		n++
+		key := m.declName(sc.Fn) + " / row of a handle that may be closed is scanned through the nil-safe helper"
+		if sc.Site == nil {
+			r.check(false, rule, key, m.instrPos(sc.Call), "", "(*sql.Row).Scan is called directly on a row whose origin the checker cannot see: if it can come from the closed-bucket stub it is nil")
+			continue
+		}
+		r.check(!sc.Site.Classes[HClosed] && !sc.Site.Classes[HUnknown], rule, key, m.instrPos(sc.Call), "the row comes from a handle that is never the closed-bucket stub ("+classList(sc.Site)+")", "(*sql.Row).Scan is called directly on a row from a handle that may be the closed-bucket stub ("+classList(sc.Site)+"), whose QueryRow returns nil: a Close that lands before this read makes it a nil-pointer panic instead of a bucket-closed error")
+	}
+	if n == 0 {
+		r.info(rule, "instances", "-", "no direct (*sql.Row).Scan outside the scan helper")
 	}
 }
